@@ -59,6 +59,25 @@ def check_conv(d: dict[str, Any]) -> str | None:
                                    stride=(g['sh'], g['sw']))
     if not torch.equal(u.transpose(1, 2).reshape(N, oh, ow, nf), p):
         return 'patch extraction disagrees with torch unfold'
+    # the helper is stateless: a larger input, a smaller batch and then the
+    # original input again through the SAME helper give the same answers
+    big = (torch.arange(3 * g['cin'] * (g['h'] + 3) * (g['w'] + 2),
+                        dtype=torch.float64) + 7).reshape(
+        3, g['cin'], g['h'] + 3, g['w'] + 2)
+    pb = helper._extract_patches(big.clone())
+    ub = torch.nn.functional.unfold(big, (g['kh'], g['kw']),
+                                    padding=(g['ph'], g['pw']),
+                                    stride=(g['sh'], g['sw']))
+    if pb.shape[-1] != nf or not torch.equal(
+            ub.transpose(1, 2).reshape(pb.shape), pb):
+        return 'patch extraction of a larger input disagrees with torch unfold'
+    p1 = helper._extract_patches(x[:1].clone())
+    if not torch.equal(p1, p[:1]):
+        return ('patch extraction depends on what the helper saw before '
+                '(smaller input after a larger one)')
+    p_again = helper._extract_patches(x.clone())
+    if not torch.equal(p_again, p):
+        return 'patch extraction is not repeatable on the same helper'
     # advertised vs produced factor shapes
     a = helper.get_a_factor(x.clone())
     if tuple(a.shape) != tuple(helper.a_factor_shape) or \
